@@ -19,6 +19,8 @@ type H264Cache struct {
 	gop      queue.Queue
 	sps      *rtp.Packet // 序列参数集包
 	pps      *rtp.Packet // 图像参数集包
+	hasKey   bool        // a key picture has been seen
+	keyTS    uint32      // RTP timestamp of the most recent key picture
 }
 
 // NewH264Cache 创建 H264 缓存
@@ -52,6 +54,16 @@ func (cache *H264Cache) CachePack(pack Pack) bool {
 		return false
 	}
 
+	// 一个关键帧可能由多个 slice/分包组成（同一 RTP 时间戳）：
+	// only the first packet of a key picture starts a new GOP
+	if islice {
+		if cache.hasKey && cache.keyTS == rtppack.Timestamp {
+			islice = false
+		} else {
+			cache.hasKey, cache.keyTS = true, rtppack.Timestamp
+		}
+	}
+
 	if cache.cacheGop { // 需要缓存 GOP
 		if islice { // 关键帧
 			cache.gop.Reset()
@@ -70,6 +82,7 @@ func (cache *H264Cache) Reset() {
 
 	cache.sps = nil
 	cache.pps = nil
+	cache.hasKey = false
 	cache.gop.Reset()
 }
 
